@@ -861,8 +861,12 @@ def run_property(prop, tier, seed, jobs_n):
     # evidence
     proved = [r for r in results if r['status'] == 'proved' and r.get('class') != 'B']
     bounded = [r for r in results if r.get('class') == 'B']
-    n_ob = sum(r.get('properties', 0) for r in results if r.get('class') != 'B' and r['status'] in ('proved', 'failed'))
-    n_dis = sum(r.get('properties', 0) - len(r.get('failed_props', [])) for r in results if r.get('class') != 'B' and r['status'] in ('proved', 'failed'))
+    # proof-level counts: cbmc properties of the U/W obligations that this run checked and that are claimed as discharged.
+    # Obligations that fail as a listed known finding are reported separately (they are not claimed), bounded ones never count.
+    known_keys = set((r['unit'], r['ob'], r['config']) for k, r in known_hits)
+    counted = [r for r in results if r.get('class') != 'B' and r['status'] in ('proved', 'failed') and (r['unit'], r['ob'], r['config']) not in known_keys]
+    n_ob = sum(r.get('properties', 0) for r in counted)
+    n_dis = sum(r.get('properties', 0) - len(r.get('failed_props', [])) for r in counted)
     funcs = {}
     for (uname, cfg), d in lowered.items():
         if d and d != 'census' and os.path.exists(os.path.join(d, 'funcs.json')):
@@ -899,13 +903,16 @@ def run_property(prop, tier, seed, jobs_n):
             'undecided_clauses': meta.get('undecided_clauses', []),
             'lemmas': meta.get('lemmas', []),
             'known_findings_reported': [k['id'] for k, r in known_hits],
+            'known_finding_obligations': [{'finding': k['id'], 'unit': r['unit'], 'obligation': r['ob'], 'config': r['config'], 'cbmc_properties': r.get('properties'),
+                                           'failing_checks': [p['desc'] for p in r.get('failed_props', [])]} for k, r in known_hits],
         },
         'assumptions': meta.get('assumptions', []) + load_json(os.path.join(ROOT, 'trusted_base.json')),
         'wall_s': round(time.time() - t_start, 1),
         'violations': len(viol_lines),
     }
-    os.makedirs(os.path.join(ROOT, 'evidence'), exist_ok=True)
-    json.dump(ev, open(os.path.join(ROOT, 'evidence', prop + '.json'), 'w'), indent=1)
+    evdir = os.environ.get('VERIF_EVIDENCE_DIR') or os.path.join(ROOT, 'evidence')
+    os.makedirs(evdir, exist_ok=True)
+    json.dump(ev, open(os.path.join(evdir, prop + '.json'), 'w'), indent=1)
     print('property=%s tier=%s units=%d cbmc-properties=%d discharged=%d canaries=%d/%d undecided=%d known=%d violations=%d wall=%.0fs' % (
         prop, tier, len(results), n_ob, n_dis, ev['coverage']['canaries_failed_as_expected'], len(canaries), len(undecided), len(known_hits),
         len(viol_lines), time.time() - t_start))
